@@ -10,6 +10,16 @@ CHECKS = {
    "Every Range state reachable inside 3x3 / 4x4 coordinate boxes (several origins incl. the sheet's far corner, 2-3 cell values, three cell types) from every constructor is enumerated to closure by calling the real methods; every state is compared with a map model through all read accessors. Exhaustive inside the box; nothing is claimed for larger rectangles except by the argument that the code has no size-dependent branches beyond 'inside / grow rows / grow cols / grow both / disjoint / overlap', all of which occur in the box.",
    "Trusted: the 60-line map model in props/c05.rs; coordinates near u32::MAX are not explored.",
    "DESIGN.md §2 C05"),
+ "C09": ("model_checking", "E1-choice",
+   "stateless choice-tree exploration (full product / deviation-bounded) of ranges x header configs x target shapes on the real RangeDeserializer vs a reference row mapper",
+   "Every small range (origin, 0-3 rows, 1-3 columns, 10 cell values incl. two error kinds), every header mode (none / all / every ordered custom selection incl. padded and unknown names / struct field names) and 12 target record shapes are enumerated; every item, every size_hint before each next() and every CellError kind and absolute position is compared with a reference mapper. Full product on small jobs, all choice vectors with <=2 (thorough 3) deviations from the default on the rest.",
+   "Trusted: the reference conversions in props/c09.rs; serde's derive. Custom error messages are not compared.",
+   "DESIGN.md §2 C09"),
+ "C11": ("model_checking", "sweep",
+   "complete enumeration of every whole-day serial x both date systems x 16 fractions on the real conversion code vs an integer calendar with exact i128 millisecond rounding",
+   "All 2 958 466 whole days of the supported span, in both date systems, at 16 fractions chosen at millisecond, half-millisecond and day boundaries (94.7 M conversions) are converted by the real code and compared with Hinnant's integer civil_from_days and exact rounding; monotonicity is checked over the whole sorted grid; as_date/as_time/as_duration and the Data::Int/Float paths on a fixed sub-lattice; NaN, infinities, huge and negative values must not panic and never yield a date.",
+   "Trusted: model/dates.rs (60 lines of integer arithmetic). Fractions between the 16 grid points are not enumerated; within a tie window of max(2^-9 ms, 3 ulp) either millisecond is accepted.",
+   "DESIGN.md §2 C11"),
 }
 NOT_BUILT = "check not built yet in this round (planned, see DESIGN.md §2); not a claim that the technique cannot apply"
 def main():
